@@ -252,4 +252,11 @@ theorem logpdfTerms_perm_template (m : Model ℝ) (hs : Shape m) (he : Extra m) 
     rw [h1, h2]
     exact filter_normal_poisson_perm ts _
 
+theorem flatten_opt {α : Type} (l : List α) : (if l.isEmpty then [] else [l] : List (List α)).flatten = l := by
+  cases l <;> simp
+
+theorem flatten_opt2 {α : Type} (a b : List α) :
+    ((if a.isEmpty then [] else [a]) ++ (if b.isEmpty then [] else [b]) : List (List α)).flatten = a ++ b := by
+  rw [List.flatten_append, flatten_opt, flatten_opt]
+
 end Pyhf
